@@ -190,6 +190,12 @@ class Abstract(Dom):
         self.effects = effects          # engine-level callable(vr, interp, args): what a call may change
 
 
+class AbstractKey(Dom):
+    """An object of which only `key < cell value` is used, where that comparison is an unknown pure (total,
+    deterministic, effect-free) function of the value it is compared with: proving a search routine for such a
+    key proves it for every ordering key whose __lt__ is pure."""
+
+
 class AnyObj(Dom):
     """An object of which nothing is used but calls of its methods (a logger): every attribute is a
     callable without effect that returns None."""
@@ -217,7 +223,8 @@ class Contract:
                  decreases=None, invariants=None, notes='', bound_args=None,
                  klass='PROVED', frame=None, when=None, free_vars=(),
                  native_call=None, apply_decorators=False, heap=False, effects=None, record=False, ghost=(), prepare=None,
-                 modifies=None, heap_sets=(), ghost_before_loop=None):
+                 modifies=None, heap_sets=(), ghost_before_loop=None, abstract_str_order=False,
+                 fast_branch=False, tier='quick'):
         self.target = target
         self.prop = prop
         self.params = params
@@ -246,6 +253,9 @@ class Contract:
         self.modifies = modifies    # heap mode: the heap fields the function may change (None: any); checked and used
         self.heap_sets = tuple(heap_sets)      # locals `x = set()` of addresses that are kept as heap fields
         self.ghost_before_loop = ghost_before_loop or {}    # loop ordinal -> engine-level ghost action before the loop
+        self.fast_branch = fast_branch    # branch feasibility is decided without the quantified facts of the path
+        self.tier = tier            # 'thorough': discharged by the thorough command only (minutes per scenario)
+        self.abstract_str_order = abstract_str_order    # text order as an abstract strict total order (pyvc/strorder.py)
 
 
 class Lemma:
